@@ -40,7 +40,12 @@ def make_jobs(ctx: Ctx, count: int) -> list[dict]:
         duration = rng.choice([20, 30, 40, 60])
         if dtk == "lt1":
             duration = 16
-        spec = scen.sequence_spec(rng, n, wf, phase, dmm, slm, duration, modulation=False, amp_scale=8.0)
+        # extra strata of the statement: output modulation (AnalogDevice) and local drives next to the global one
+        modulation = kind == "rydberg" and i % 13 == 6
+        local = kind == "rydberg" and not modulation and i % 8 == 3
+        spec = scen.sequence_spec(rng, n, wf, phase, dmm, slm, duration, modulation=modulation, amp_scale=8.0)
+        if local:
+            scen.add_local_phase(rng, spec)
         if kind == "xy":
             spec["channels"] = {"ryd": "mw_global"}
             spec.pop("dmm", None)
@@ -56,6 +61,8 @@ def make_jobs(ctx: Ctx, count: int) -> list[dict]:
         dt, default, times = scen.dt_and_times(rng, dur, dtk, evk, True, True)
         if dt < 2 and dtk != "lt1":
             dt = float(rng.choice([2, 4, 5, 10]))
+        if modulation:
+            dt = float(rng.choice([2, 4, 5, 10]))   # the modulated sequence is longer than the programmed one; keep dt generic
         reorder = (i % 3 != 0)
         kinds = [["occupation", "energy"], ["occupation", "correlation_matrix"], ["occupation", "energy_variance", "energy_second_moment"], ["occupation", "state"]][i % 4]
         kinds = [k for k in kinds if k != "state"]   # StateResult disables reordering and has no dt/2 self-consistency term
@@ -63,9 +70,9 @@ def make_jobs(ctx: Ctx, count: int) -> list[dict]:
         prec = rng.choice([1e-5, 1e-7, 1e-9])
         jobs.append({
             "id": i + 1, "seq": spec, "dt": dt, "precision": prec, "max_bond_dim": rng.choice([1024, 1024, 16]), "reorder": reorder, "solver": "tdvp",
-            "obs": obs, "default_times": default, "modulation": False, "kind": kind, "seed": ctx.seed * 100003 + i,
+            "obs": obs, "default_times": default, "modulation": modulation, "kind": kind, "seed": ctx.seed * 100003 + i,
             "init": [None, None, "product", "random"][i % 4] if not (dmm != "none" and False) else None,
-            "strata": {"n": n, "kind": kind, "wf": wf, "phase": phase, "dmm": dmm, "slm": slm, "dt": dtk, "eval": evk, "reorder": reorder, "prec": prec},
+            "strata": {"n": n, "kind": kind, "wf": wf, "phase": phase, "dmm": dmm, "slm": slm, "dt": dtk, "eval": evk, "reorder": reorder, "prec": prec, "mod": modulation, "local": local},
         })
     return jobs
 
